@@ -123,12 +123,16 @@ PathHas(nodes, ip, kw) == Has(nodes[ip[1]], kw) \/ (Len(ip) > 1 /\ PathHas(nodes
 
 \* ------------------------------------------------------------ distribution of when / if-feature / status
 Distribute(nodes, u) ==
-  LET iff == Sub(u, "if-feature")  wh == Sub(u, "when")  stt == Sub(u, "status")
+  LET iff == Sub(u, "if-feature")
+      \* a when of an augment is evaluated on the augment's target ("parent" of the introduced node); for a when of a
+      \* uses the RFC says the parent too, the property statement nothing: its context is not judged ("any")
+      wh0 == Sub(u, "when")
+      wh == [i \in 1..Len(wh0) |-> [wh0[i] EXCEPT !.arg = <<wh0[i].arg[1], IF u.kw = "augment" THEN "parent" ELSE "any">>]]
+      stt == Sub(u, "status")
   IN [i \in 1..Len(nodes) |->
        LET n == nodes[i] IN
        IF n.kw \notin NodeKw THEN n
        ELSE [n EXCEPT !.subs = @ \o iff \o wh
-                               \o (IF wh # <<>> /\ Has(n, "when") THEN <<Unj("when on both the uses/augment and the introduced node")>> ELSE <<>>)
                                \o (IF stt # <<>> /\ Has(n, "status") THEN <<Unj("status on both the uses/augment and the introduced node")>> ELSE stt)]]
 
 \* ------------------------------------------------------------ refine (RFC 6020 7.12.2)
@@ -379,7 +383,7 @@ FeatureUnjudged(FS, M) ==
 Blank(kind, name) ==
   [kind |-> kind, name |-> name, ns |-> "", module |-> "", submodule |-> "", config |-> TRUE, status |-> "current",
    presence |-> FALSE, mandatory |-> FALSE, hasdef |-> FALSE, def |-> "", keys |-> <<>>, min |-> "0", max |-> "unbounded",
-   ordby |-> "system", uniques |-> {}, type |-> "", musts |-> {}, whens |-> {}, desc |-> "", children |-> {}]
+   ordby |-> "system", uniques |-> {}, type |-> "", musts |-> {}, whens |-> <<>>, desc |-> "", children |-> {}]
 ErrNode(class) == Blank("!error", class)
 UnjNode(why) == Blank("!unjudged", why)
 RECURSIVE NodeMarks(_, _)
@@ -410,6 +414,25 @@ ClashMarks(stmts, X) ==
      ELSE IF Dup(pn) THEN {UnjNode("equal names in different namespaces among siblings")}
      ELSE IF Dup(an) THEN {UnjNode("name clash with a node that a feature removes")}
      ELSE {}
+
+\* "a/b/c" -> <<"a", "b", "c">>
+RECURSIVE SplitFrom(_, _, _)
+SplitFrom(str, start, i) == IF i > Len(str) THEN <<SubSeq(str, start, Len(str))>>
+                            ELSE IF SubSeq(str, i, i) = "/" THEN <<SubSeq(str, start, i - 1)>> \o SplitFrom(str, i + 1, i + 1)
+                            ELSE SplitFrom(str, start, i + 1)
+SplitSlash(str) == SplitFrom(str, 1, 1)
+\* what a descendant schema node identifier of a unique statement designates below a list (RFC 6020 7.8.3):
+\* "ok" a leaf, "gone" a leaf that a feature removes, "notleaf", "list" (it passes through a list), "missing"
+RECURSIVE UniqueResolve(_, _, _)
+UniqueResolve(stmts, names, X) ==
+  LET is == {i \in 1..Len(stmts) : stmts[i].kw \in NodeKw /\ stmts[i].arg[1] = names[1]} IN
+  IF is = {} THEN "missing"
+  ELSE LET n == stmts[MinOf(is)] IN
+       IF n.kw = "list" THEN "list"
+       ELSE IF Len(names) = 1 THEN (IF n.kw # "leaf" THEN "notleaf" ELSE IF FeatOk(n, X) THEN "ok" ELSE "gone")
+       ELSE IF n.kw \in {"leaf", "leaf-list"} THEN "missing"
+       ELSE IF ~FeatOk(n, X) THEN "gone"
+       ELSE UniqueResolve(n.subs, Tail(names), X)
 
 RECURSIVE BuildNode(_, _, _, _, _), BuildKids(_, _, _, _, _)
 BuildKids(stmts, cfg, st, keys, X) ==
@@ -450,10 +473,10 @@ BuildNode(s, cfg, st, isKey, X) ==
       \cup (IF s.kw = "list" /\ c /\ keys = <<>> THEN {ErrNode("key-required")} ELSE {})
       \cup {ErrNode("key-not-a-leaf-child") : k \in {x \in Range(keys) : ~\E i \in 1..Len(s.subs) : s.subs[i].kw = "leaf" /\ s.subs[i].arg[1] = x}}
       \cup {UnjNode("list key removed by a feature") : k \in {x \in Range(keys) : \E i \in 1..Len(s.subs) : s.subs[i].kw = "leaf" /\ s.subs[i].arg[1] = x /\ ~FeatOk(s.subs[i], X)}}
-      \cup {ErrNode("unique-not-a-leaf-child") : u \in {y \in Range(Sub(s, "unique")) : s.kw = "list" /\ \E x \in Range(y.arg) :
-                                                        ~\E i \in 1..Len(s.subs) : s.subs[i].kw = "leaf" /\ s.subs[i].arg[1] = x}}
+      \cup {ErrNode("unique-not-a-descendant-leaf") : u \in {y \in Range(Sub(s, "unique")) : s.kw = "list" /\ \E x \in Range(y.arg) :
+                                                          UniqueResolve(s.subs, SplitSlash(x), X) \in {"missing", "notleaf", "list"}}}
       \cup {UnjNode("unique leaf removed by a feature") : u \in {y \in Range(Sub(s, "unique")) : s.kw = "list" /\ \E x \in Range(y.arg) :
-                                                        \E i \in 1..Len(s.subs) : s.subs[i].kw = "leaf" /\ s.subs[i].arg[1] = x /\ ~FeatOk(s.subs[i], X)}}
+                                                          UniqueResolve(s.subs, SplitSlash(x), X) = "gone"}}
       \cup (IF s.kw = "choice" /\ Dup(caseNames) THEN {ErrNode("name-clash")} ELSE {})
       \cup (IF s.kw = "choice" /\ hasd /\ Arg1(s, "default", "") \notin Range(caseNames) THEN {ErrNode("choice-default-missing")} ELSE {})
       \cup (IF s.kw = "choice" /\ hasd /\ Arg1(s, "default", "") \in Range(caseNames) /\ Arg1(s, "default", "") \notin hereCases
@@ -465,7 +488,9 @@ BuildNode(s, cfg, st, isKey, X) ==
                  !.submodule = IF HasFile(X.M, s.own) /\ IsSubm(FileOf(X.M, s.own)) THEN s.own ELSE "",
                  !.config = c, !.status = t,
                  !.desc = Arg1(s, "description", ""),
-                 !.whens = {[text |-> w.arg[1], ns |-> NsOfOwn(X.M, w.own), asparent |-> FALSE] : w \in Range(Sub(s, "when"))},
+                 !.whens = LET ws == Sub(s, "when") IN
+                           [i \in 1..Len(ws) |-> LET ctx == IF Len(ws[i].arg) > 1 THEN ws[i].arg[2] ELSE "self" IN
+                                                  [text |-> ws[i].arg[1], ns |-> NsOfOwn(X.M, ws[i].own), asparent |-> ctx = "parent", ctx |-> ctx]],
                  !.musts = IF s.kw \in {"choice", "case"} THEN {} ELSE {[text |-> m.arg[1], ns |-> NsOfOwn(X.M, m.own)] : m \in Range(Sub(s, "must"))},
                  !.children = kids \cup problems]
   IN CASE s.kw = "container" -> [base EXCEPT !.presence = Has(s, "presence")]
@@ -512,6 +537,10 @@ WriteFile(f) ==
   IN WriteBack(g, g)
 WriteAll(M) == [i \in 1..Len(M) |-> WriteFile(M[i])]
 
+\* a node with two when statements (its own and one distributed from a uses) cannot be written as YANG text
+RECURSIVE TwoWhens(_)
+TwoWhens(st) == (st.kw \in NodeKw /\ Len(Sub(st, "when")) > 1) \/ \E i \in 1..Len(st.subs) : TwoWhens(st.subs[i])
+
 \* ------------------------------------------------------------ the stages and the result
 Stage2(M) == InlineLocalAug(ExpandAll(HomeAll(M)))
 \* everything the spec says about module set M with enabled features E
@@ -526,9 +555,9 @@ Analyse(M, E) ==
   IN [verdict |-> IF unj # {} THEN "unjudged" ELSE IF errs # {} THEN "err" ELSE "ok",
       errs |-> errs, why |-> unj,
       schema |-> Clean(B),
-      inlineOk |-> MarksAll(T2, "!error") = {},
+      inlineOk |-> MarksAll(T2, "!error") = {} /\ \A i \in 1..Len(T2) : ~TwoWhens(T2[i]),
       inline |-> WriteAll(T2),
-      editOk |-> MarksAll(ed, "!error") = {} /\ MarksAll(ed, "!unjudged") = {},
+      editOk |-> MarksAll(ed, "!error") = {} /\ MarksAll(ed, "!unjudged") = {} /\ \A i \in 1..Len(ed) : ~TwoWhens(ed[i]),
       edit |-> WriteAll(ed)]
 Schema(M, E) == LET a == Analyse(M, E) IN [verdict |-> a.verdict, schema |-> IF a.verdict = "ok" THEN a.schema ELSE Blank("tree", "")]
 Inline(M) == Analyse(M, {}).inline
